@@ -140,10 +140,39 @@ WITNESS_PROBLEMS = [
 ]
 
 
+# instances of the classes for which an end-to-end theorem exists (`evaluate_correct_dense1`, …): the run shows
+# that the kernels the real compiler emits for them are the ones the theorem is about (COMPILE correspondence)
+# and executes them like every other problem
+THEOREM_CLASS_PROBLEMS = [
+    ("a(i) = b(i) * c(i) + 2 * d(i)", {"a": "d", "b": "d", "c": "d", "d": "d"}),
+    ("a(i) = b(i) - 0.5 * (c(i) - 3)", {"a": "d", "b": "d", "c": "d"}),
+    ("a(i) = b(i)", {"a": "d", "b": "d"}),
+    ("a(i) = (b(i) + c(i)) * (b(i) - c(i))", {"a": "d", "b": "d", "c": "d"}),
+    ("a(i) = 2", {"a": "d"}),
+]
+
+
+def theorem_classes(chk, drv, prepared):
+    """count the prepared problems that are instances of an end-to-end theorem (decided by the driver from the
+    theorem's own hypotheses)"""
+    from . import algebra
+
+    reqs = []
+    for pr in prepared:
+        fs = [[nm, "".join(pr.fmts[nm][0]), list(pr.fmts[nm][1])] for nm in pr.problem.formats.keys()]
+        reqs.append("CLASS " + sx(algebra.export_assignment(pr.assignment)) + " " + sx(fs))
+    out = {}
+    for pr, rep in zip(prepared, drv.batch(reqs)):
+        cls = str(rep)
+        chk.count("end_to_end_theorem_class_" + cls)
+        out[pr.key()] = cls
+    return out
+
+
 def enumerate_problems(chk: Check, n_random: int, per_assignment: int, max_leaves=4, extra_texts=()):
     from .gen import parse_fmt
 
-    for text, fs in WITNESS_PROBLEMS:
+    for text, fs in WITNESS_PROBLEMS + THEOREM_CLASS_PROBLEMS:
         yield Prepared(text, {n: parse_fmt(f) for n, f in fs.items()})
     rng = chk.rng
     texts = list(problems.CURATED) + list(extra_texts)
